@@ -368,7 +368,7 @@ def check(prop, tier, only_obligation=None):
             "functions_under_contract": [f for r in results for f in r["functions"]],
             "functions_assumed_by_contract": [f for r in results for f in r["assumed_functions"]],
             "per_obligation": [{"id": o["id"], "kind": o["kind"], "verdict": o["verdict"], "backend": o["backend"],
-                                "characterisation": o.get("characterisation", False)} for o in obligations],
+                                "characterisation": o.get("characterisation", False), **({"wall_s": o["wall_s"]} if "wall_s" in o else {})} for o in obligations],
             "samples": [{"id": o["id"], "clause": o["text"]} for o in obligations[:6]],
             "canaries_failed_as_required": {k: v for r in results for k, v in r["canaries"].items()},
             "assumption_scan": {r["unit"]: r["scan"] for r in results},
